@@ -301,21 +301,39 @@ def stereo_mol_graph_to_rdmol(
 
 
         elif a_stereo is not None and isinstance(a_stereo, Octahedral):
-            for rd_n in rd_atom.GetNeighbors():
-                mol.RemoveBond(rd_n.GetIdx(), atom_idx)
+            rd_nbr_order = tuple(
+                [
+                    idx_map_num_dict[nbr.GetIdx()]
+                    for nbr in rd_atom.GetNeighbors()
+                ]
+            )
+            if len(rd_nbr_order) != 6 or None in a_stereo.atoms:
+                for rd_n in rd_atom.GetNeighbors():
+                    mol.RemoveBond(rd_n.GetIdx(), atom_idx)
 
-            for a in (1, 5, 6, 3, 4, 2):
-                a = a_stereo.atoms[a]
-                mol.AddBond(
-                    atom_idx,
-                    map_num_idx_dict[a],
-                )
+                for a in (1, 5, 6, 3, 4, 2):
+                    a = a_stereo.atoms[a]
+                    mol.AddBond(
+                        atom_idx,
+                        map_num_idx_dict[a],
+                    )
             rd_atom.SetChiralTag(Chem.ChiralType.CHI_OCTAHEDRAL)
             rd_atom.SetHybridization(Chem.HybridizationType.SP3D2)
-            if a_stereo.parity == 1:
-                rd_atom.SetUnsignedProp("_chiralPermutation", 1)
-            elif a_stereo.parity == -1:
-                rd_atom.SetUnsignedProp("_chiralPermutation", 2)
+            if a_stereo.parity is not None:
+                # the permutation label is chosen for the neighbour order the
+                # molecule already has (same table as in rdmol2graph): the
+                # bonds are left alone, so that chiral tags of neighbouring
+                # centres stay valid
+                from stereomolgraph.rdmol2graph import RDMol2StereoMolGraph
+
+                oct_orders = RDMol2StereoMolGraph._oct_atom_order_permutation_dict
+                for label, order in oct_orders.items():
+                    candidate = Octahedral(
+                        (atom, *[rd_nbr_order[i] for i in order]), 1
+                    )
+                    if candidate == a_stereo:
+                        rd_atom.SetUnsignedProp("_chiralPermutation", label)
+                        break
 
     for b_stereo in (bs for bs in graph.bond_stereo.values() if bs):
         a1, a2 = b_stereo.atoms[2], b_stereo.atoms[3]
